@@ -144,6 +144,10 @@ pub fn build(id: &str, tier: &str, seed: u64, threads: usize) -> Option<Plan> {
         "C02" => {
             let mut cfgs = grid(&[Role::Recv], &[8, 9, 512], if q { &[1, 2, 3, 4] } else { &[1, 2, 3, 4, 5, 8, 16] }, !q, false, 1 << 20);
             cfgs.extend(grid(&[Role::Recv], &[1428, 65464], &[1, 2], false, false, if q { 200_000 } else { 600_000 }));
+            // very large windows (more buffered pieces than IOV_MAX / typical batch limits) flushed in one go
+            for (w, n) in [(1025u16, 2100u64), (1100, 1200), (5000, 5003)] {
+                cfgs.push(Cfg { role: Role::Recv, b: 8, w, len: (n - 1) * 8 + 5, hs: false, every: 0 });
+            }
             for bsz in [9usize, 100, 1000, 1428, 1468] {
                 for w in [1u16, 4] {
                     for len in [4097u64, 8191, 8192, 8193, 16389, 20000, 65537, 70001] {
@@ -225,6 +229,9 @@ pub fn build(id: &str, tier: &str, seed: u64, threads: usize) -> Option<Plan> {
                     fam_ack_patterns(b, &mut cases);
                     if b.spec.w <= 5 {
                         fam_bogus_acks(b, &mut rng, &mut cases);
+                    }
+                    if b.spec.nblocks() <= 3 || (!q && b.spec.nblocks() <= 9) {
+                        fam_stale_then_silence(b, &mut cases);
                     }
                 }
                 fam_single(b, false, 1, &mut cases);
@@ -401,6 +408,14 @@ pub fn build(id: &str, tier: &str, seed: u64, threads: usize) -> Option<Plan> {
                     set_repeat(&mut v, rep);
                     cases.extend(v);
                 }
+            }
+            // the block number wraps while duplicate-packets mode is on (receiver role only: every copy costs a real
+            // millisecond, 1 026 ACK bursts at windowsize 64)
+            for (n, w) in [(65537u64, 64u16), (65600, 128)] {
+                let mut s = base_spec(&Cfg { role: Role::Recv, b: 8, w, len: (n - 1) * 8 + 3, hs: false, every: 0 }, seed);
+                s.repeat = 2;
+                s.label = format!("wrapdup:R:n{n}:w{w}:N1");
+                cases.push(s);
             }
             // N = 254: real 1 ms sleeps between copies, keep to <= 3 blocks
             for role in [Role::Send, Role::Recv] {
